@@ -28,7 +28,7 @@ QUICK_RUNS = 4000
 THOROUGH_RUNS = 250_000
 EXPECT_PROBES = ["subscription_during_stream", "duplicate_request", "unknown_component_request", "back_to_back_subscriptions",
                  "request_same_iteration_as_message", "all_four_categories",
-                 "actor_restarted_after_api_failure"]
+                 "actor_restarted_after_api_failure", "device_clock_coarse", "device_clock_steps_back"]
 
 
 def scenario(sim: Sim) -> None:
@@ -67,9 +67,22 @@ def scenario(sim: Sim) -> None:
     sim.set_cost_mode(ch.weighted("cost_mode", [3, 1, 1]), ch.draw("cost_seed", 1 << 16))
     sim.config.update(layout=layout)
 
+    # timestamps the devices put on their messages: strictly increasing, a coarse device clock (pairs of consecutive
+    # messages carry the same timestamp) or a clock that steps back now and then; delivery must not depend on them
+    ts_mode = ch.weighted("device_clock", [3, 1, 1])
+    if ts_mode:
+        sim.probe("device_clock_coarse" if ts_mode == 1 else "device_clock_steps_back")
+
+    def ts_of(n: int) -> Any:
+        if ts_mode == 1:
+            return sim.epoch + timedelta(seconds=n // 2)
+        if ts_mode == 2 and n % 5 == 4:
+            return sim.epoch + timedelta(seconds=n - 3)
+        return sim.epoch + timedelta(seconds=n)
+
     def build(cid: int, n: int) -> Any:
         k = cinfo[cid]
-        ts = sim.epoch + timedelta(seconds=n)
+        ts = ts_of(n)
         f = float(n)
         if k == "meter":
             return fakes.meter_data(cid, ts, active_power=f, frequency=f + 0.5, reactive_power=f + 0.125)
@@ -200,7 +213,7 @@ def scenario(sim: Sim) -> None:
             if any(abs(v - n) > 1e-9 for v, n in zip(vals, ns)):
                 sim.violation("metric_value", sig, f"{key}: values {vals[:6]} are not this metric's field of the messages")
             for (ts, _), n in zip(s["got"], ns):
-                if ts != sim.epoch + timedelta(seconds=n):
+                if ts != ts_of(n):
                     sim.violation("metric_value", dict(sig, what="timestamp"), f"{key}: sample for message {n} stamped {ts}")
             for a, b in zip(ns, ns[1:]):
                 if b != a + 1:
